@@ -27,10 +27,23 @@ def gtDigest (w : World) : String :=
   let us := w.users.map (fun u => s!"{u.amount}/{u.rank}/{u.totalMinted}/{u.lastMintedAt}/{u.exchange}")
   s!"T={g.totalMinted} S={g.supply} V={g.gtVault} steps={g.growSteps} cost={g.mintingCost} cum={g.cumInvCost} cts={g.lastCumTs} lm={g.lastMintedAt} | vault {showBool v.initialized} {showBool v.confirmed} {idx} {v.timeWindow} {v.amount} | {joinSp us}"
 
-/-- mirror of the harness guard: a mint crossing more than 20000 grow steps is skipped. -/
+/-- bounded pre-run of the growth loop: `true` iff `n` iterations complete without a `u128`
+overflow and without reaching a fixed point first (a fixed point means the real loop would spin
+until the last step). -/
+def gtLoopRunsLong (U f : Nat) : Nat → Nat → Bool
+  | 0, _ => true
+  | n + 1, c =>
+    match applyFactor 128 U c f with
+    | none => false
+    | some c' => if c' = c then true else gtLoopRunsLong U f n c'
+
+/-- mirror of the harness guard (`too_many_steps` in `h_store/src/bin/c30.rs`): a mint is skipped
+only if it crosses more than 100000 grow steps AND the cost does not overflow within the first
+100000 iterations (otherwise the real loop ends early with `Internal` and the mint is compared). -/
 def gtTooManySteps (g : Gt) (amount : Nat) : Bool :=
   amount != 0 && g.growStepAmount != 0 && decide (g.totalMinted + amount < 2 ^ 64) &&
-    decide ((g.totalMinted + amount) / g.growStepAmount - g.growSteps > 20000)
+    decide ((g.totalMinted + amount) / g.growStepAmount - g.growSteps > 100000) &&
+    gtLoopRunsLong gtUnit g.costGrowFactor 100000 g.mintingCost
 
 def gtLookup (st : List (Nat × World)) (sid : Nat) : Option World :=
   (st.find? (fun p => p.1 == sid)).map (·.2)
